@@ -113,7 +113,10 @@ CmdSAlg(s, now, a, op, store) ==
            res == FoldSets(op, ops[1], Tail(ops))
            anyMissing == \E i \in first..Len(a) : ~Has(s, a[i])
            lbl == nm \o (IF anyMissing THEN ".missing_operand" ELSE "") \o (IF res = {} THEN ".empty" ELSE ".nonempty")
-       IN IF store THEN One(RInt(Cardinality(res)), StoreSet(s, a[2], res),
+       IN IF store THEN
+            LET done == One(RInt(Cardinality(res)), StoreSet(s, a[2], res),
                             lbl \o (IF Has(s, a[2]) THEN (IF HasT(s, a[2], "set") THEN ".replace" ELSE ".replace_othertype") ELSE ".fresh"))
+            IN \* destination of another type: overwritten (command reference) or WRONGTYPE + unchanged (DESIGN.md 2.4)
+               IF WrongFor(s, a[2], "set") THEN Two(done, One(RWrong, s, lbl \o ".replace_othertype.wrongtype")) ELSE done
           ELSE One(RUStrs(SortBytes(res)), s, lbl)
 =============================================================================
